@@ -82,6 +82,7 @@ class PathState:
         self.fresh_log = []        # every fresh constant, in creation order (for skolemisation in quantifiers)
         self.no_fork = 0           # >0 inside quantifier bodies: a real fork is not allowed
         self.known = {}            # z3 term id -> list of (frozenset(scope ids), bool): entailed truth values
+        self.reached = set()       # line numbers of return/raise statements reached (reachability cover)
 
     # ---- naming -----------------------------------------------------------------
     def fresh_name(self, base):
